@@ -5,7 +5,7 @@ import re
 
 from hypothesis import strategies as st
 
-from harness import core, gateways as gw, gen, recipes
+from harness import core, gateways as gw, gen, recipes, x_c20
 from harness.core import Result
 
 LEVEL = "exploration"
@@ -17,12 +17,43 @@ RULES = {
     "interfaces, compared with the bare application; non-trivial = depth >= 1 and the inner response has >= 2 body chunks, a repeated "
     "header or a status other than 200",
     "grid": "exhaustive: raw inner apps over {0,1,2,3 chunks} x {list, tuple, iter, generator, restarted start_response with exc_info / optional ASGI keys omitted} x {0,1,2 Set-Cookie lines} x {identity depth 1, 2} x both interfaces",
+    "shapes": "enumerated (harness/x_c20.py): raw inner apps with legitimate but unusual protocol shapes - Set-Cookie spelled SET-COOKIE / Set-cookie, same-name and identical cookie lines, five "
+    "cookies, a field repeated three times / in three spellings / with a value contained in an earlier one, header names with underscore, dot and the other token punctuation, empty and "
+    "quoted values; bodies of 0 B .. 64 KiB, 64 KiB + 1, n x 64 KiB, 1 MiB, 1 MiB + 1 (the ASGI relay buffer reads 64 KiB blocks and spools to disk above 1 MiB), 300 chunks, empty "
+    "chunks; optional ASGI keys (`body`, `more_body`, `headers`) left out, header items as lists; methods HEAD / OPTIONS / DELETE / PATCH / PROPFIND against apps that send body bytes "
+    "- x pass-through stacks (identity x1, x2, observing) and one add-header layer; the bare raw app is also compared with its recipe; non-trivial = depth >= 1 and (>= 2 chunks or a "
+    "repeated header or status != 200 or an editing layer)",
+    "edits": "enumerated: 7 inner apps (raw with repeated Vary and two cookies, raw without the fields, raw sending x-inner in two spellings, plain / file / stream / redirect views with "
+    "cookies) x single edits {set, del, delitem, append, setdefault, if-absent-then-set, set_cookie} by lower / canonical / upper-case names on present, absent and repeated fields, "
+    "8-bit / empty / comma values, Content-Type / Content-Length / ETag / Location (middleware only: response classes compute those at render time) x the layer being a middleware, a "
+    "view decorator, below / above a pass-through layer, and pairs of edits; file views x every kind of Range answer (200, 206, multipart, 400, 416) x GET / HEAD; expected headers come "
+    "from a list-of-pairs reference model of the edits applied to the bare answer; non-trivial = every case (depth >= 1 with an editing layer)",
+    "mounted": "enumerated: a layer around Router / Subpaths / nested mounts / Hosts / Files / Pages (application objects without __name__ that write path parameters, SCRIPT_NAME / "
+    "root_path into the environ / scope they are handed) with echo views, static files and plain views as leaves x matching, non-matching and redirecting paths x requests with query, "
+    "cookies, repeated headers, JSON body, Range, If-Modified-Since, HEAD x pass-through and editing stacks; the echo (what the view sees of the request incl. path_params and URL) "
+    "must be equal; non-trivial = every case",
+    "errors": "enumerated: views raising HTTPException (7 status / headers / content shapes; the server model turns an escaping HTTPException into that answer) or an ordinary exception, "
+    "stream views failing at step 0..3, raw apps failing before / after start, at the first next() and mid-body x decorator / middleware / mixed / observing stacks; same exception class "
+    "and nothing different emitted before it (status, headers under pass-through stacks, wrapped body a prefix of the bare one); non-trivial = every case",
+    "zerocopy": "enumerated: the server offers the ASGI http.response.zerocopysend extension (key `zerocopy` of the request; also a drawn dimension of stacks and xstacks and "
+    "part of the file cases of edits and mounted) - file views / file response apps of 0, 64, 200, 70000, 140000 bytes x {no Range, single, suffix, open, two and three "
+    "ranges, unsatisfiable, malformed} x GET / HEAD x stacks of 1..3 middlewares (identity, observing, editing), view decorators, decorators below middlewares; Files / Pages / "
+    "mounts behind layers; apps with no use for the extension; status, header multiset and body bytes as everywhere; non-trivial = every case",
+    "xstacks": "Hypothesis companion of the enumerated sub-checks: raw apps (header lines drawn from all shape blocks, chunks incl. 64 KiB-boundary sizes, omitted ASGI keys), "
+    "views of every response class except event streams, mounted apps x 0..2 decorator layers + 0..3 middleware layers with free-form edits x GET / POST / HEAD / DELETE",
 }
 ASSUMPTIONS = [
     "body chunking, reason phrase and header order are free; a mid-body failure of the inner app may surface before or after the bytes already produced",
     "repeated headers other than Set-Cookie may be combined into one 'a, b' line (RFC 7230 3.2.2 equivalence); Set-Cookie lines must stay separate",
+    "every layer's handler is entered exactly once per request; the innermost application runs as often as without layers (once; not at all when a router answers 404 itself)",
+    "an HTTPException leaving the inner application passes the layers as an exception (their edits need not show on the answer the server makes of it)",
+    "a cookie added by a layer (response.set_cookie) may be serialised in any way that starts with name=value (serialisation is C16's subject)",
+    "when bare and wrapped application end with the same exception, the wrapped one may have emitted less (buffering), never a different status / headers / bytes",
+    "requests that offer the ASGI zero-copy-send extension: the server model reads the announced (fd, offset, count) itself; whether a layer passes the event on or "
+    "turns it into body bytes is free, the bytes are judged",
 ]
 
+ZEROCOPY = {"http.response.zerocopysend": {}}
 EDITS = {"identity": None, "add": ("x-mw", "1"), "replace": ("x-inner", "replaced"), "delete": ("x-inner", None)}
 
 
@@ -66,20 +97,51 @@ def wrap(inner, stack, decorators):
     return app
 
 
-def one(side, app_recipe, rq):
-    built = recipes.build_app(app_recipe, side)
-    run = gw.call_wsgi(built.app, rq) if side == "wsgi" else gw.call_asgi(built.app, rq)
+def started(side, run):
+    """Did the server see the beginning of a response (status and headers)?"""
+    return run.start_calls > 0 if side == "wsgi" else bool(run.events)
+
+
+def before_failure(r, side, ctx, bare, wrapped, want_heads, got_heads):
+    """Both runs ended with the same exception class.  What the wrapped application emitted before the
+    exception must not differ from what the bare one emitted: it may have emitted less (a layer that buffers
+    - accepted variation), never something else.  want_heads is None when a layer edits headers."""
+    if not started(side, wrapped):
+        return
+    if not started(side, bare):
+        r.fail(f"C20:{side}:emitted-before-failure:start", f"{ctx}: the bare application failed without starting a response, wrapped it started one with status {wrapped.status_code}")
+        return
+    if bare.status_code != wrapped.status_code:
+        r.fail(f"C20:{side}:emitted-before-failure:status", f"{ctx}: status before the failure: bare {bare.status_code}, wrapped {wrapped.status_code}")
+    if want_heads is not None and want_heads != got_heads:
+        r.fail(f"C20:{side}:emitted-before-failure:headers", f"{ctx}: headers before the failure: wrapped {got_heads!r}, bare {want_heads!r}")
+    if not bare.body.startswith(wrapped.body):
+        r.fail(f"C20:{side}:emitted-before-failure:body", f"{ctx}: body before the failure: bare {bare.body[:80]!r}, wrapped {wrapped.body[:80]!r}")
+
+
+def observed(side, run):
     heads = [(k, v) for k, v in run.headers] if side == "wsgi" else [(k.decode("latin-1"), v.decode("latin-1")) for k, v in run.headers]
     # the random multipart/byteranges boundary differs from run to run
-    import re
-
     for k, v in heads:
-        m = re.match(r"^multipart/byteranges; boundary=([a-z0-9]+)$", v) if k.lower() == "content-type" else None
+        m = re.match(r"^multipart/byteranges; boundary=([a-z0-9]+)(?:, |$)", v) if k.lower() == "content-type" else None  # ", ...": a layer appended to the field
         if m:
             b = m.group(1)
             heads = [(k2, v2.replace(b, "BOUNDARY")) for k2, v2 in heads]
             run.chunks = [b"".join(run.chunks).replace(b.encode(), b"BOUNDARY")]
-    return run, heads, built
+            return heads
+    # a layer may have deleted or replaced the Content-Type of a multipart/byteranges answer: recognise the body itself
+    body = b"".join(run.chunks)
+    m = re.match(rb"\A--([a-z0-9]{13})\nContent-Type: [^\n]*\nContent-Range: bytes \d+-\d+/\d+\n\n", body)
+    if m and body.endswith(b"\n--" + m.group(1) + b"--\n"):
+        run.chunks = [body.replace(m.group(1), b"BOUNDARY")]
+        heads = [(k, v.replace(m.group(1).decode(), "BOUNDARY")) for k, v in heads]
+    return heads
+
+
+def one(side, app_recipe, rq):
+    built = recipes.build_app(app_recipe, side)
+    run = gw.call_wsgi(built.app, rq) if side == "wsgi" else gw.call_asgi(built.app, rq)
+    return run, observed(side, run), built
 
 
 def oracle(case) -> Result:
@@ -94,9 +156,10 @@ def oracle(case) -> Result:
         if rqd.get("body") is not None:
             body = list(rqd["body"])
             headers = headers + [["Content-Type", rqd.get("ctype", "application/octet-stream")]]
-        rq = gw.areq(method=rqd.get("method", "GET"), path="/m", headers=headers, body=list(body))
+        ext = ZEROCOPY if rqd.get("zerocopy") else None  # the server offers ASGI zero-copy send (see x_run)
+        rq = gw.areq(method=rqd.get("method", "GET"), path="/m", headers=headers, body=list(body), extensions=ext)
         bare, bheads, bbuilt = one(side, inner, rq)
-        rq2 = gw.areq(method=rqd.get("method", "GET"), path="/m", headers=headers, body=list(body))
+        rq2 = gw.areq(method=rqd.get("method", "GET"), path="/m", headers=headers, body=list(body), extensions=ext)
         wrapped, wheads, wbuilt = one(side, wrap(inner, stack, decorators), rq2)
         ctx = f"{side} inner {inner!r} stack {stack!r} decorators {decorators!r}" + (f" request body {body!r} as {rqd.get('ctype')!r}" if rqd.get("body") is not None else "")
         if inner["app"] == "echo" and bbuilt.stash != wbuilt.stash:
@@ -116,8 +179,9 @@ def oracle(case) -> Result:
             wname = type(wrapped.exc).__name__ if wrapped.exc is not None else None
             if bname != wname:
                 r.fail(f"C20:{side}:exception-differs:{bname}-vs-{wname}", f"{ctx}: bare raised {bare.exc!r}, wrapped raised {wrapped.exc!r}")
-            elif inner.get("raises") != "mid" and bare.start_calls if side == "wsgi" else False:
-                pass
+            else:
+                passthrough = all(k == "identity" for k in list(stack) + list(decorators))
+                before_failure(r, side, ctx, bare, wrapped, fold(bheads) if passthrough else None, fold(wheads))
             r.label("inner-raises")
             continue
         # what the bare application itself gets wrong (e.g. a hop-by-hop header it chose to send) is not the
@@ -149,6 +213,8 @@ def oracle(case) -> Result:
             r.label("repeated-header")
         if nchunks >= 2:
             r.label("multi-chunk")
+        if side == "asgi" and bare.zerocopy_events:
+            r.label("zerocopy-events-bare")
         _ = editing
     r.nontrivial = nontrivial
     r.label(f"depth={depth}", f"inner={inner['app']}" + (":" + inner["response"]["kind"] if "response" in inner else ""))
@@ -156,7 +222,430 @@ def oracle(case) -> Result:
     return r
 
 
-SUBS = {"stacks": oracle, "grid": oracle}
+# ------------------------------------------------------------------------------------------------
+# sub-checks over the wider recipe interpreter harness/x_c20.py: free-form header edits, unusual but
+# legitimate protocol shapes of the inner application, routers / mounts / static files behind a layer,
+# failing views and applications
+
+PASS_THROUGH = ("identity", "observe")
+
+
+def expected_heads(bheads, layers):
+    """Reference model of the edits (list-of-pairs header store, names case-insensitive): what the response
+    of the bare application looks like after the layers' edits, innermost layer first."""
+    pairs = [(k.lower(), v) for k, v in bheads]
+    cookies = []
+    for ly in layers:
+        e = ly["edit"]
+        op = e["op"]
+        if op in PASS_THROUGH:
+            continue
+        if op == "cookie":
+            cookies.append((e["name"], e["value"]))
+            continue
+        name = e["name"].lower()
+        if op == "set":
+            pairs = [(k, v) for k, v in pairs if k != name] + [(name, e["value"])]
+        elif op in ("del", "delitem"):
+            pairs = [(k, v) for k, v in pairs if k != name]
+        elif op in ("setdefault", "ifabsent"):
+            if not any(k == name for k, _ in pairs):
+                pairs.append((name, e["value"]))
+        elif op == "append":
+            pairs.append((name, e["value"]))  # a further line of the field = one more list member (fold joins them in order)
+        else:
+            raise core.HarnessError(f"edit {e!r}")
+    return pairs, cookies
+
+
+def x_run(side, inner, layers, rqd):
+    built = x_c20.build(inner, layers, side)
+    # "zerocopy": the server offers the ASGI `http.response.zerocopysend` extension (a WSGI server has no such thing; the
+    # key is ignored there).  The server model reads the announced (fd, offset, count) itself, so body bytes are judged as
+    # always.  A FileResponse behind a middleware used to lose its body here (repaired by 4a80be4,
+    # replays/C20/reg-zerocopy-behind-middleware.json).
+    rq = gw.areq(method=rqd.get("method", "GET"), path=rqd.get("path", "/m"), query=rqd.get("query", "").encode("latin-1"),
+                 headers=[list(h) for h in rqd.get("headers", [])], body=list(rqd.get("body", [])),
+                 extensions=ZEROCOPY if rqd.get("zerocopy") else None)
+    run = gw.call_wsgi(built.app, rq) if side == "wsgi" else gw.call_asgi(built.app, rq)
+    return run, observed(side, run), built
+
+
+def oracle_x(case) -> Result:
+    r = Result()
+    inner, layers, rqd = case["inner"], case["layers"], case.get("request", {})
+    depth = len(layers)
+    passthrough = all(ly["edit"]["op"] in PASS_THROUGH for ly in layers)
+    nontrivial = False
+    for side in ("wsgi", "asgi"):
+        bare, bheads, bbuilt = x_run(side, inner, [], rqd)
+        wrapped, wheads, wbuilt = x_run(side, inner, layers, rqd)
+        ctx = f"{side} inner {inner!r} layers {layers!r} request {rqd!r}"
+        if inner["app"] == "xraw" and not inner.get("raises"):
+            # the bare raw application involves no code under test: it must come out as written in the recipe
+            ref = (int(inner["status"][:3]), fold([(k, v) for k, v in inner["headers"]]), b"".join(x_c20.expand(inner["chunks"])))
+            if bare.exc is not None or (bare.status_code, fold(bheads), bare.body) != ref:
+                raise core.HarnessError(f"bare raw application differs from its recipe: {ctx}: {bare.exc!r} {bare.status_code} {fold(bheads)!r}")
+        # every layer's handler is entered exactly once, the innermost application (view, raw application,
+        # response object; none when a router answers 404 itself) as often as without layers and at most once
+        ran = sorted(c[1] for c in wbuilt.calls if c[0] == "mw")
+        if ran != list(range(depth)):
+            r.fail(f"C20:{side}:layer-call-count", f"{ctx}: handlers entered (by layer index) {ran!r}, expected each of {depth} once")
+        bleaf, wleaf = recipes.leaf_calls(bbuilt), recipes.leaf_calls(wbuilt)
+        if len(bleaf) > 1:
+            raise core.HarnessError(f"bare application ran {len(bleaf)} leaves: {ctx}")
+        if len(wleaf) != len(bleaf):
+            r.fail(f"C20:{side}:inner-call-count", f"{ctx}: inner application ran {len(wleaf)} times, bare {len(bleaf)}")
+        if bbuilt.stash != wbuilt.stash:
+            diff = []
+            for be, we in zip(bbuilt.stash, wbuilt.stash):
+                diff += [(k, be.get(k), we.get(k)) for k in sorted(set(be) | set(we)) if be.get(k) != we.get(k)]
+            if len(bbuilt.stash) != len(wbuilt.stash):
+                diff.append(("views-run", len(bbuilt.stash), len(wbuilt.stash)))
+            r.fail(f"C20:{side}:request-view-differs:{','.join(sorted({d[0] for d in diff}))[:50]}", f"{ctx}: (accessor, bare, wrapped) = {diff[:3]!r}")
+        if bare.exc is not None or wrapped.exc is not None:
+            bname = type(bare.exc).__name__ if bare.exc is not None else None
+            wname = type(wrapped.exc).__name__ if wrapped.exc is not None else None
+            if bname != wname:
+                r.fail(f"C20:{side}:exception-differs:{bname}-vs-{wname}", f"{ctx}: bare raised {bare.exc!r}, wrapped raised {wrapped.exc!r}; wrapped answered {wrapped.status_code}")
+            else:
+                before_failure(r, side, ctx, bare, wrapped, fold(bheads) if passthrough else None, fold(wheads))
+            r.label("inner-raises")
+            if depth >= 1:
+                nontrivial = True
+            continue
+        bare_codes = {e[0] for e in bare.errors}
+        introduced = [e for e in wrapped.errors if e[0] not in bare_codes]
+        if introduced:
+            r.fail(f"C20:{side}:protocol:{introduced[0][0]}", f"{ctx}: {introduced[:2]!r}")
+        if bare.status_code != wrapped.status_code:
+            r.fail(f"C20:{side}:status", f"{ctx}: bare {bare.status_code}, wrapped {wrapped.status_code}")
+        if bare.via_http_exception:
+            r.label("http-exception")
+        pairs, new_cookies = expected_heads(bheads, layers)
+        if bare.via_http_exception and fold(wheads) == fold(bheads):
+            # an HTTPException of the inner application passes the layers as an exception: their handlers never
+            # hold a response to edit.  (A layer that turned it into a response and edited that would be fine, too.)
+            pairs, new_cookies = [(k.lower(), v) for k, v in bheads], []
+        rest = list(wheads)
+        for name, value in new_cookies:
+            # how a cookie is serialised is C16's subject: any Set-Cookie line for that name and value will do
+            at = [i for i, (k, v) in enumerate(rest) if k.lower() == "set-cookie" and (v == f"{name}={value}" or v.startswith(f"{name}={value};"))]
+            if not at:
+                r.fail(f"C20:{side}:edit-cookie-missing", f"{ctx}: no Set-Cookie line for {name}={value} in {wheads!r}")
+            else:
+                rest.pop(at[0])
+        want, got = fold(pairs), fold(rest)
+        if want != got:
+            wc = [v for k, v in want if k == "set-cookie"]
+            gc = [v for k, v in got if k == "set-cookie"]
+            what = "set-cookie" if wc != gc else "headers"
+            r.fail(f"C20:{side}:{what}", f"{ctx}: wrapped headers {got!r}, expected {want!r}")
+        if bare.body != wrapped.body:
+            first = next((i for i, (a, b) in enumerate(zip(bare.body, wrapped.body)) if a != b), min(len(bare.body), len(wrapped.body)))
+            r.fail(f"C20:{side}:body", f"{ctx}: bare body {bare.body[:60]!r} ({len(bare.body)} bytes), wrapped body {wrapped.body[:60]!r} ({len(wrapped.body)} bytes), first difference at offset {first}")
+        nchunks = len([c for c in bare.chunks if c])
+        repeated = len({k.lower() for k, _ in bheads}) < len(bheads)
+        if depth >= 1 and (nchunks >= 2 or repeated or bare.status_code != 200 or not passthrough or inner["app"] not in ("xraw", "xview")):
+            nontrivial = True
+        if repeated:
+            r.label("repeated-header")
+        if nchunks >= 2:
+            r.label("multi-chunk")
+        if len(bare.body) > 65536:
+            r.label("body>64KiB")
+        if side == "asgi" and bare.zerocopy_events:
+            r.label("zerocopy-events-bare")
+    r.nontrivial = nontrivial
+    r.label(f"depth={depth}", f"inner={inner['app']}", *sorted({"edit=" + ly["edit"]["op"] for ly in layers}))
+    r.weight = 4
+    return r
+
+
+def mw(op="identity", **kw):
+    return {"layer": "middleware", "edit": dict(op=op, **kw)}
+
+
+def deco(op="identity", **kw):
+    return {"layer": "decorator", "edit": dict(op=op, **kw)}
+
+
+def xraw(headers, chunks=(b"hello", b"world"), status="200 OK", **kw):
+    return dict({"app": "xraw", "status": status, "headers": [list(h) for h in headers], "chunks": list(chunks), "returns": "list"}, **kw)
+
+
+IDENTITY_STACKS = [[mw()], [mw(), mw()], [mw("observe")]]
+
+# header blocks a legitimate inner application may send and the random raw applications never did
+SHAPE_HEADERS = {
+    "cookie-spellings": [["Content-Type", "text/plain"], ["SET-COOKIE", "a=1; Path=/"], ["Set-cookie", "b=2"], ["set-cookie", "c=3; HttpOnly"]],
+    "cookie-upper-twice": [["SET-COOKIE", "a=1"], ["SET-COOKIE", "b=2"]],
+    "cookie-same-name": [["Set-Cookie", "a=1; Path=/"], ["Set-Cookie", "a=2; Path=/admin"], ["Set-Cookie", "a=; Max-Age=0; Domain=example.com"]],
+    "cookie-same-line": [["Set-Cookie", "a=1; Path=/"], ["Set-Cookie", "b=2"], ["Set-Cookie", "a=1; Path=/"]],
+    "cookie-five": [["Set-Cookie", f"c{i}=v{i}; Path=/p{i}"] for i in range(5)],
+    "three-fold": [["Vary", "Accept"], ["Vary", "Cookie"], ["Vary", "Origin"], ["Link", "<a>; rel=next"], ["Link", "<a>"], ["Link", "<a>; rel=next"]],
+    "mixed-case-repeat": [["Cache-Control", "no-cache"], ["cache-control", "no-store"], ["CACHE-CONTROL", "private"]],
+    "token-names": [["X_Trace", "1"], ["x.dot", "2"], ["X-Tok!#$%&'*+^`|~", "3"], ["x-trace", "4"], ["X_TRACE", "5"]],
+    "odd-values": [["X-Empty", ""], ["X-Quote", "\"a, b\""], ["Expires", "Wed, 21 Oct 2026 07:28:00 GMT"], ["X-Latin", "d\xe9j\xe0"], ["X-Inner-Space", "a  b\tc"], ["X-Empty", ""]],
+    "none": [],
+}
+SHAPE_BODIES = {
+    "empty": [], "one": [b"x"], "64KiB": [{"pat": 65536}], "64KiB+1": [{"pat": 65537}], "3x64KiB": [{"pat": 3 * 65536}], "200k": [{"pat": 200000}],
+    "2x70k": [{"pat": 70000}, {"pat": 70000}], "1MiB": [{"pat": 1 << 20}], "1MiB+1": [{"pat": (1 << 20) + 1}], "1MiB+64KiB": [{"pat": 1 << 20}, {"pat": 65536}],
+    "300-chunks": [b"ab"] * 300, "empties": [b"", b"", b"tail", b""],
+}
+
+
+def shape_cases(quick=True):
+    plain = [["Content-Type", "text/plain"]]
+    for hname, heads in SHAPE_HEADERS.items():
+        for layers in IDENTITY_STACKS + [[mw("set", name="x-mw", value="1")]]:
+            yield {"inner": xraw(heads, label=hname), "layers": layers, "request": {"method": "GET"}}
+    for bname, chunks in SHAPE_BODIES.items():
+        for layers in IDENTITY_STACKS[: (2 if quick and bname.startswith("1MiB") else 3)]:
+            for returns in ("list", "generator"):
+                yield {"inner": xraw(plain, chunks, label=bname, returns=returns), "layers": layers, "request": {"method": "GET"}}
+    # optional ASGI keys left out (they have defaults); on WSGI these are ordinary cases
+    for omit in (["body"], ["more_body"], ["body", "more_body"], ["headers"], ["headers", "body", "more_body"]):
+        for chunks in ([], [b"hello"], [b"hello", b"", b"world"]):
+            for items in ("tuple", "list"):
+                for layers in IDENTITY_STACKS[:2]:
+                    yield {"inner": xraw([] if "headers" in omit else plain + [["Set-Cookie", "a=1"]], chunks, omit=omit, header_items=items, status="201 Created"),
+                           "layers": layers, "request": {"method": "GET"}}
+    # methods: the layers have no opinion on the method; an application that answers HEAD / OPTIONS / DELETE with
+    # body bytes hands them to the server with or without layers
+    for method in ("HEAD", "OPTIONS", "DELETE", "PATCH", "PROPFIND"):
+        for layers in IDENTITY_STACKS + [[mw("set", name="x-mw", value="1")]]:
+            yield {"inner": xraw(plain + [["Content-Length", "10"]]), "layers": layers, "request": {"method": method}}
+            yield {"inner": {"app": "xview", "response": {"kind": "plain", "content": "text", "status": 200}}, "layers": [deco()] + layers, "request": {"method": method}}
+            yield {"inner": {"app": "xview", "response": {"kind": "stream", "chunks": [b"a", b"b"]}}, "layers": layers, "request": {"method": method}}
+            yield {"inner": {"app": "xview", "response": {"kind": "file", "size": 64, "name": "f.txt", "chunk": 16}}, "layers": layers, "request": {"method": method}}
+
+
+EDIT_INNERS = [
+    xraw([["Content-Type", "text/plain"], ["X-Inner", "orig"], ["Vary", "Accept"], ["Vary", "Cookie"], ["Set-Cookie", "a=1; Path=/"], ["Set-Cookie", "b=2"]]),
+    xraw([["Content-Type", "text/plain"]], [b"only"]),
+    xraw([["x-inner", "one"], ["X-INNER", "two"], ["vary", "Accept"]], [], status="404 Not Found"),
+    {"app": "xview", "response": {"kind": "plain", "content": "hi", "headers": {"x-inner": "orig", "Vary": "Accept"}, "cookies": [{"name": "sid", "value": "v"}, {"name": "t", "value": "w", "httponly": True}]}},
+    {"app": "xview", "response": {"kind": "file", "size": 64, "name": "f.txt", "chunk": 16, "headers": {"X-Inner": "orig"}}},
+    {"app": "xview", "response": {"kind": "stream", "chunks": [b"a", b"", b"bc"], "headers": {"vary": "Accept"}, "status": 202}},
+    {"app": "xview", "response": {"kind": "redirect", "url": "/next", "headers": {"X-Inner": "orig"}, "cookies": [{"name": "sid", "value": "v"}]}},
+]
+# names no response class computes when it is rendered (a view decorator edits the response object itself)
+EDITS_ANY_LAYER = (
+    [{"op": "set", "name": n, "value": "replaced"} for n in ("x-inner", "X-Inner", "X-INNER", "x-new", "X-New")]
+    + [{"op": "set", "name": n, "value": "Origin"} for n in ("vary", "Vary")]
+    + [{"op": "del", "name": n} for n in ("x-inner", "X-Inner", "Vary", "x-absent", "X-Absent")]
+    + [{"op": "delitem", "name": n} for n in ("X-Inner", "VARY")]
+    + [{"op": "append", "name": n, "value": "Origin"} for n in ("vary", "Vary", "VARY")]
+    + [{"op": "append", "name": n, "value": "more"} for n in ("X-Inner", "X-New", "x-new")]
+    + [{"op": op, "name": n, "value": "default"} for op in ("setdefault", "ifabsent") for n in ("X-Inner", "x-inner", "Vary", "X-New")]
+    + [{"op": "set", "name": "X-New", "value": v} for v in ("d\xe9j\xe0 vu", "a\tb", "", "a, b", "\xff")]
+    + [{"op": "cookie", "name": "mw_c", "value": "1"}]
+)
+# a middleware sees the finished header block of the inner response: it may edit any field
+EDITS_MIDDLEWARE_ONLY = [
+    {"op": "set", "name": "Content-Type", "value": "text/html"}, {"op": "del", "name": "Content-Type"}, {"op": "append", "name": "Content-Type", "value": "x"},
+    {"op": "set", "name": "content-length", "value": "99"}, {"op": "del", "name": "Content-Length"}, {"op": "set", "name": "ETag", "value": "\"mw\""},
+    {"op": "del", "name": "Last-Modified"}, {"op": "set", "name": "Location", "value": "/elsewhere"},
+]
+
+
+def edit_cases():
+    for inner in EDIT_INNERS:
+        view = inner["app"] == "xview"
+        for e in EDITS_ANY_LAYER + EDITS_MIDDLEWARE_ONLY:
+            yield {"inner": inner, "layers": [{"layer": "middleware", "edit": e}], "request": {"method": "GET"}}
+        for e in EDITS_ANY_LAYER:
+            yield {"inner": inner, "layers": [mw(), {"layer": "middleware", "edit": e}], "request": {"method": "GET"}}
+            yield {"inner": inner, "layers": [{"layer": "middleware", "edit": e}, mw("observe")], "request": {"method": "GET"}}
+            if view:
+                yield {"inner": inner, "layers": [{"layer": "decorator", "edit": e}], "request": {"method": "GET"}}
+                yield {"inner": inner, "layers": [{"layer": "decorator", "edit": e}, deco(), mw()], "request": {"method": "GET"}}
+        # two edits of the same field, and of two fields
+        pairs = [
+            ({"op": "append", "name": "Vary", "value": "Origin"}, {"op": "append", "name": "vary", "value": "Accept-Language"}),
+            ({"op": "set", "name": "X-Inner", "value": "first"}, {"op": "append", "name": "x-inner", "value": "second"}),
+            ({"op": "del", "name": "X-Inner"}, {"op": "set", "name": "x-inner", "value": "again"}),
+            ({"op": "cookie", "name": "mw_c", "value": "1"}, {"op": "cookie", "name": "mw_d", "value": "2"}),
+            ({"op": "cookie", "name": "mw_c", "value": "1"}, {"op": "del", "name": "Vary"}),
+            ({"op": "append", "name": "X-New", "value": "1"}, {"op": "delitem", "name": "x-new"}),
+        ]
+        for e1, e2 in pairs:
+            yield {"inner": inner, "layers": [{"layer": "middleware", "edit": e1}, {"layer": "middleware", "edit": e2}], "request": {"method": "GET"}}
+            if view:
+                yield {"inner": inner, "layers": [{"layer": "decorator", "edit": e1}, {"layer": "middleware", "edit": e2}], "request": {"method": "GET"}}
+
+
+def edit_range_cases():
+    """File responses take a different path for every kind of Range answer (200, 206 single, 206 multipart, 400, 416):
+    what a layer adds or changes must arrive on each of them, and nothing else may change."""
+    inner = EDIT_INNERS[4]
+    edits = [{"op": "set", "name": "X-Inner", "value": "replaced"}, {"op": "cookie", "name": "mw_c", "value": "1"}, {"op": "append", "name": "Vary", "value": "Origin"}, {"op": "del", "name": "x-inner"},
+             {"op": "identity"}]
+    for rng in ("bytes=0-0", "bytes=2-", "bytes=0-0,2-3", "bytes=9999-", "bytes=3-1", "bogus", "bytes=1-\xff"):
+        for method in ("GET", "HEAD"):
+            for e in edits:
+                for layers in ([{"layer": "decorator", "edit": e}], [{"layer": "middleware", "edit": e}], [{"layer": "decorator", "edit": e}, mw()]):
+                    for zc in (False, True):
+                        yield {"inner": inner, "layers": layers, "request": {"method": method, "headers": [["Range", rng]], "zerocopy": zc}}
+            # the multipart Content-Type (it names the random boundary) deleted, extended or replaced by a middleware
+            for e in ({"op": "del", "name": "Content-Type"}, {"op": "append", "name": "Content-Type", "value": "x"}, {"op": "set", "name": "content-type", "value": "text/html"}):
+                for zc in (False, True):
+                    yield {"inner": inner, "layers": [{"layer": "middleware", "edit": e}, mw()], "request": {"method": method, "headers": [["Range", rng]], "zerocopy": zc}}
+
+
+def zerocopy_cases(quick=True):
+    """The server offers the ASGI zero-copy send extension: file applications answer with `http.response.zerocopysend`
+    events ((fd, offset, count) instead of bytes).  Behind layers the answer must still carry the file's bytes."""
+    ranges = [None, "bytes=0-0", "bytes=5-40", "bytes=-7", "bytes=3-", "bytes=0-0,2-3", "bytes=0-9,20-29,60-", "bytes=9999999-", "bogus"]
+    mws = [mw(), mw("observe"), mw("set", name="X-Inner", value="replaced")]
+    for size, chunk in ((64, 16), (0, 16), (200, 4096), (70000, 4096), (140000, 65536)):
+        file_r = {"kind": "file", "size": size, "name": "f.bin" if size % 2 else "f.txt", "chunk": chunk, "headers": {"x-inner": "orig"}}
+        apps = [({"app": "xview", "response": file_r}, True), ({"app": "response", "response": file_r}, False), ({"app": "view", "response": file_r}, False)]
+        for inner, decorable in apps:
+            stacks = [mws[:1], mws[:2], mws[:3], [mws[2]]]
+            if decorable:
+                stacks += [[deco()], [deco("cookie", name="mw_c", value="1")], [deco(), mw()], [deco("observe"), mw(), mw("append", name="Vary", value="Origin")]]
+            big = size > 65536  # more than one 64 KiB block of the relay buffer; building such a file recipe is slow, so fewer of them
+            if big:
+                stacks = [mws[:1], mws[:3]] + ([[deco(), mw()]] if decorable else [])
+            if size == 64 or (size == 70000 and not quick):
+                rngs = ranges
+            elif big:
+                rngs = [None, "bytes=5-69000", "bytes=0-9,20-29,66000-"]
+            else:
+                rngs = [None, "bytes=0-0,2-3"]
+            for rng in rngs:
+                for method in ("GET",) if big and quick else ("GET", "HEAD"):
+                    for layers in stacks:
+                        yield {"inner": inner, "layers": layers, "request": {"method": method, "headers": [["Range", rng]] if rng else [], "zerocopy": True}}
+    # static file applications and mounts behind layers
+    for name in ("files", "pages", "subpaths"):
+        inner, paths = MOUNTED[name]
+        for path in paths:
+            for layers in ([mw()], [mw(), mw(), mw("observe")]):
+                yield {"inner": inner, "layers": layers, "request": {"method": "GET", "path": path, "headers": [["Range", "bytes=2-5"]], "zerocopy": True}}
+    # applications that have no use for the extension
+    for inner in EDIT_INNERS[:1] + EDIT_INNERS[5:6]:
+        for layers in ([mw()], [mw(), mw()]):
+            yield {"inner": inner, "layers": layers, "request": {"method": "GET", "zerocopy": True}}
+
+
+_TREE = {"a.txt": b"hello file", "sub/index.html": b"<p>index</p>", "sub/b.bin": bytes(range(64))}
+_ECHO = {"app": "echo", "order": ["body"]}
+MOUNTED = {
+    "router": ({"app": "router", "routes": [["/items/{id:int}", _ECHO], ["/files/{p:any}", {"app": "echo", "order": ["stream"]}],
+                                            ["/plain", {"app": "view", "response": {"kind": "plain", "content": "plain", "cookies": [{"name": "a", "value": "1"}, {"name": "b", "value": "2"}]}}],
+                                            ["/", {"app": "response", "response": {"kind": "html", "content": "<p>home</p>"}}]]},
+               ["/items/42", "/items/-1", "/items/abc", "/files/a/b.txt", "/files/", "/plain", "/", "/nowhere", "/items/7/"]),
+    "subpaths": ({"app": "subpaths", "mounts": [["/api", _ECHO], ["/static", {"app": "files", "tree": _TREE}], ["", {"app": "view", "response": {"kind": "plain", "content": "root", "status": 203}}]]},
+                 ["/api/users", "/api", "/api/", "/apix", "/static/a.txt", "/static/sub/b.bin", "/static/missing", "/static/sub", "/other", "/"]),
+    "nested": ({"app": "subpaths", "mounts": [["/v1", {"app": "router", "routes": [["/u/{name}", _ECHO], ["/d/{d:date}", _ECHO]]}], ["/v2", {"app": "subpaths", "mounts": [["/deep", _ECHO]]}]]},
+               ["/v1/u/caf\xe9", "/v1/d/2024-02-29", "/v1/d/nope", "/v2/deep/x/y", "/v2/shallow", "/v3"]),
+    "hosts": ({"app": "hosts", "table": [["a\\.example\\.com", _ECHO], ["b\\.example\\.com(:\\d+)?", {"app": "view", "response": {"kind": "json", "content": {"host": "b"}}}]]},
+              ["/h"]),
+    "files": ({"app": "files", "tree": _TREE}, ["/a.txt", "/sub/b.bin", "/sub/index.html", "/missing.txt", "/sub", "/../a.txt"]),
+    "pages": ({"app": "pages", "tree": _TREE}, ["/a.txt", "/sub/", "/sub", "/sub/index", "/missing"]),
+}
+_RQ_HEADERS = [["Cookie", "sid=abc; theme=dark"], ["Accept", "text/html, application/json;q=0.8"], ["X-Custom", "d\xe9j\xe0"], ["X-Custom", "again"], ["Referer", "http://example.org/from?x=1"]]
+
+
+def mounted_cases():
+    stacks = IDENTITY_STACKS + [[mw("set", name="x-mw", value="1")], [mw("append", name="Vary", value="Origin"), mw()]]
+    for name, (inner, paths) in MOUNTED.items():
+        for path in paths:
+            variants = [{"method": "GET", "path": path, "query": "x=1&x=2&y=%C3%A9", "headers": _RQ_HEADERS}]
+            if name in ("router", "subpaths", "nested"):
+                variants.append({"method": "POST", "path": path, "headers": [["Content-Type", "application/json"]], "body": [b'{"a": ', b"1}"]})
+            if name in ("files", "pages", "subpaths"):
+                variants.append({"method": "GET", "path": path, "headers": [["Range", "bytes=1-3,5-6"]]})
+                variants.append({"method": "HEAD", "path": path})
+                variants.append({"method": "GET", "path": path, "zerocopy": True})
+                variants.append({"method": "GET", "path": path, "headers": [["Range", "bytes=1-3,5-6"]], "zerocopy": True})
+                variants.append({"method": "HEAD", "path": path, "zerocopy": True})
+                variants.append({"method": "GET", "path": path, "headers": [["If-Modified-Since", "Wed, 21 Oct 2037 07:28:00 GMT"], ["If-None-Match", "\"nope\", *"]]})
+            if name == "hosts":
+                variants = [{"method": "GET", "path": path, "headers": [["Host", h]] + _RQ_HEADERS[:1]} for h in ("a.example.com", "b.example.com:8000", "c.example.com", "")]
+            for rq in variants:
+                for layers in stacks:
+                    yield {"inner": inner, "layers": layers, "request": rq}
+
+
+def error_cases():
+    stacks_view = [[deco()], [deco(), deco("observe")], [mw()], [mw(), mw()], [deco(), mw()], [deco("observe"), mw("observe"), mw()]]
+    stacks_app = [s for s in stacks_view if all(ly["layer"] == "middleware" for ly in s)] + [[mw("observe")]]
+    https = [[404, None, None], [403, {"X-Reason": "no"}, "forbidden"], [503, {"Retry-After": "5", "Cache-Control": "no-store"}, "later"], [418, {"Set-Cookie": "a=1"}, None],
+             [301, {"Location": "/moved"}, None], [299, None, "custom"], [400, {}, ""]]
+    for h in https:
+        for layers in stacks_view:
+            yield {"inner": {"app": "xview", "raise_http": h}, "layers": layers, "request": {"method": "GET"}}
+    for layers in stacks_view:
+        yield {"inner": {"app": "xview", "raise_exc": "ViewError"}, "layers": layers, "request": {"method": "POST", "body": [b"x"]}}
+        for raise_at in (0, 1, 2, 3):
+            yield {"inner": {"app": "xview", "response": {"kind": "stream", "chunks": [b"a", b"bc", b"def"], "raise_at": raise_at, "status": 201, "headers": {"x-inner": "orig"}}}, "layers": layers,
+                   "request": {"method": "GET"}}
+    for layers in stacks_app:
+        for n in (0, 1, 2, 4):
+            yield {"inner": xraw([["Content-Type", "text/plain"], ["Set-Cookie", "a=1"], ["Set-Cookie", "b=2"]], [b"c%d" % i for i in range(n)], status="201 Created", returns="generator", raises="mid"),
+                   "layers": layers, "request": {"method": "GET"}}
+        for raises in ("before", "after", "mid"):
+            for returns in ("list", "generator"):
+                yield {"inner": {"app": "raw", "status": "202 Accepted", "headers": [["X-A", "1"], ["Set-Cookie", "a=1"]], "chunks": [b"one", b"two", b"three"], "returns": returns, "raises": raises},
+                       "layers": layers, "request": {"method": "GET"}}
+        # a failing mid-body application behind an editing layer: the exception class and what was emitted before
+        yield {"inner": xraw([["X-Inner", "orig"]], [b"one", b"two"], returns="generator", raises="mid"), "layers": layers + [mw("set", name="x-inner", value="replaced")], "request": {"method": "GET"}}
+
+
+@st.composite
+def x_case(draw):
+    """Random companion of the enumerated sub-checks: raw / view / mounted inner applications x layer stacks of
+    depth 0..3 with free-form edits."""
+    kind = draw(st.sampled_from(["xraw", "xraw", "xview", "mounted"]))
+    rq = {"method": draw(st.sampled_from(["GET", "GET", "POST", "HEAD", "DELETE"]))}
+    if kind == "xraw":
+        heads = draw(st.lists(st.sampled_from([h for hs in SHAPE_HEADERS.values() for h in hs] + [["Content-Type", "text/plain"], ["X-Inner", "orig"], ["x-inner", "lower"], ["Vary", "Accept"]]), max_size=6))
+        chunks = draw(st.lists(st.one_of(st.sampled_from([b"", b"hello", b"\x00\xff"]), st.sampled_from([1, 65535, 65536, 65537, 131072]).map(lambda n: {"pat": n})), max_size=3))
+        inner = xraw(heads, chunks, status=draw(st.sampled_from(["200 OK", "201 Created", "404 Not Found", "599 Custom", "204 No Content"])), returns=draw(st.sampled_from(["list", "generator"])),
+                     omit=draw(st.lists(st.sampled_from(["body", "more_body", "headers"]), unique=True, max_size=3)), header_items=draw(st.sampled_from(["tuple", "list"])))
+    elif kind == "xview":
+        rr = draw(gen.response_recipes(kinds=("empty", "plain", "html", "json", "redirect", "stream", "file")))
+        if draw(st.booleans()):
+            rr.setdefault("headers", {})["x-inner"] = "orig"
+        inner = {"app": "xview", "response": rr}
+        if rr["kind"] == "file":
+            r_ = draw(st.sampled_from(gen.RANGE_HEADERS))
+            if r_:
+                rq["headers"] = [["Range", r_]]
+    else:
+        name = draw(st.sampled_from(sorted(MOUNTED)))
+        inner, paths = MOUNTED[name]
+        rq["path"] = draw(st.sampled_from(paths))
+        rq["query"] = draw(st.sampled_from(["", "x=1", "a=1&a=2"]))
+        rq["headers"] = draw(st.lists(st.sampled_from(_RQ_HEADERS + [["Host", "a.example.com"], ["Host", "b.example.com"]]), unique_by=lambda h: h[0], max_size=3))
+    rq["zerocopy"] = draw(st.booleans())
+    names_any = ["x-inner", "X-Inner", "Vary", "vary", "X-New", "Cache-Control", "LINK"]
+    names_mw = names_any + ["Content-Type", "content-length", "ETag", "X_Trace"]
+
+    def edit(names):
+        op = draw(st.sampled_from(["identity", "identity", "observe", "set", "del", "delitem", "append", "setdefault", "ifabsent", "cookie"]))
+        if op in PASS_THROUGH:
+            return {"op": op}
+        if op == "cookie":
+            return {"op": op, "name": draw(st.sampled_from(["mw_c", "mw_d"])), "value": draw(st.sampled_from(["1", "two"]))}
+        e = {"op": op, "name": draw(st.sampled_from(names))}
+        if op in ("set", "append", "setdefault", "ifabsent"):
+            e["value"] = draw(st.sampled_from(["v", "Origin", "a, b", "", "d\xe9j\xe0"]))
+        return e
+
+    layers = []
+    if kind == "xview":
+        layers += [{"layer": "decorator", "edit": edit(names_any)} for _ in range(draw(st.sampled_from([0, 0, 1, 2])))]
+    layers += [{"layer": "middleware", "edit": edit(names_mw)} for _ in range(draw(st.sampled_from([0, 1, 1, 2, 3])))]
+    return {"inner": inner, "layers": layers, "request": rq}
+
+
+SUBS = {"stacks": oracle, "grid": oracle, "zerocopy": oracle_x, "shapes": oracle_x, "edits": oracle_x, "mounted": oracle_x, "errors": oracle_x, "xstacks": oracle_x}
 
 
 _raw_headers = st.lists(
@@ -215,6 +704,9 @@ def stack_case(draw):
     rq = {"method": draw(st.sampled_from(["GET", "GET", "POST"]))}
     if inner.get("response", {}).get("kind") == "file":
         rq["range"] = draw(st.sampled_from(gen.RANGE_HEADERS))
+        rq["zerocopy"] = draw(st.booleans())
+    elif draw(st.integers(0, 5)) == 0:
+        rq["zerocopy"] = True  # offered to an application that has no use for it
     return {"inner": inner, "stack": stack, "decorators": decorators, "request": rq}
 
 
@@ -237,5 +729,11 @@ def run(rec, only=None):
     quick = rec.tier == "quick"
     core.drive_cases(rec, "grid", grid_cases(), oracle)
     rec.exhaustive["grid"] = True
+    for sub, cases in (("shapes", shape_cases(quick)), ("edits", edit_cases()), ("mounted", mounted_cases()), ("errors", error_cases()), ("zerocopy", zerocopy_cases(quick))):
+        core.drive_cases(rec, sub, cases, oracle_x)
+        rec.exhaustive[sub] = True
+    core.drive_cases(rec, "edits", edit_range_cases(), oracle_x)
     core.drive_hypothesis(rec, "stacks", stack_case(), oracle, 1200 if quick else 25000)
     rec.exhaustive["stacks"] = False
+    core.drive_hypothesis(rec, "xstacks", x_case(), oracle_x, 500 if quick else 12000)
+    rec.exhaustive["xstacks"] = False
